@@ -91,6 +91,6 @@ def finish(agg, tier):
 
 
 def replay(case):
-    r = replay_c(case, ("sanitizer", "gcc_reject") if case.get("status") == "gcc_reject" else ("sanitizer",))
+    r = replay_c(case, ("sanitizer", "gcc_reject") if case.get("status") == "gcc_reject" else ("sanitizer",), only_exact=True)
     r["sig"] = {"prop": "C08", "monitor": "sanitizer", "kind": r.get("san")}
     return r
